@@ -127,6 +127,25 @@ var targets = []target{
 			"r.Read":   {Lean: "(R_Read %r (Kit.GoSem.lenI %1))", Type: "Int × Kit.GoSem.Err", Params: []string{"(R_Read : Nat → Int → Int × Kit.GoSem.Err)", "(R_IsCloser : Nat → Bool)"}},
 			"rc.Close": {Lean: "(none : Kit.GoSem.Err)", Type: "Kit.GoSem.Err", Effects: []string{"closeLog := closeLog ++ [%r]"}},
 		}},
+	{Group: "C01", Dir: "schemes/enc/v1", Func: "processSegments",
+		// the pooled buffer is a byte slice of some length (its capacity); the source is a stateful
+		// reader: R_Read s k = (n, err) of Read on a k-byte window in state s, R_Data s k the bytes it
+		// puts there, R_Step s k its next state; the output pipe and the segment function are logged
+		Types:       map[string]string{"*[]byte": "List UInt8"},
+		Abstract:    []string{"in", "out", "processFn"},
+		Ignore:      []string{"defer func() {…"},
+		ExtraParams: []string{"{σ : Type}", "(R_Read : σ → Int → Int × Kit.GoSem.Err)", "(R_Data : σ → Int → List UInt8)", "(R_Step : σ → Int → σ)", "(P_Fn : List UInt8 → BitVec 32 → Bool → Kit.GoSem.Err)", "(buf0 : List UInt8)"},
+		Ghosts:      []string{"(src : σ)", "(outLog : List (List UInt8 × BitVec 32 × Bool))", "(closedWith : List Kit.GoSem.Err)"},
+		Rewrites: map[string][2]string{
+			"BufPool.Get().(*[]byte)": {"buf0", "List UInt8"},
+			"errors.Is(err, io.EOF)":  {"(err == (some \"io.EOF\" : Kit.GoSem.Err))", "Bool"}},
+		Externs: map[string]extern{
+			"in.Read": {Lean: "(R_Read src (Kit.GoSem.lenI %1))", Type: "Int × Kit.GoSem.Err",
+				Effects: []string{"buf := Kit.GoSem.writeAt buf n (Kit.GoSem.wrapI64 (segmentSize + 1)) (R_Data src (Kit.GoSem.lenI %1))", "src := R_Step src (Kit.GoSem.lenI %1)"}},
+			"processFn":          {Lean: "(P_Fn %2 %3 %4)", Type: "Kit.GoSem.Err", Effects: []string{"outLog := outLog ++ [(%2, %3, %4)]"}},
+			"out.CloseWithError": {Lean: "(none : Kit.GoSem.Err)", Type: "Kit.GoSem.Err", Effects: []string{"closedWith := closedWith ++ [%1]"}},
+			"out.Close":          {Lean: "(none : Kit.GoSem.Err)", Type: "Kit.GoSem.Err", Effects: []string{"closedWith := closedWith ++ [(none : Kit.GoSem.Err)]"}},
+		}},
 	{Group: "C03", Dir: "crypto/padding", Func: "UnpadPKCS7"},
 	{Group: "C07", Dir: "time", Func: "ParseISO8601Duration", Externs: map[string]extern{
 		// strconv.Atoi on the bytes of the substring: any (value, err) — a parameter of the translation
@@ -185,6 +204,7 @@ type lty string // Lean type text
 const (
 	tInt  lty = "Int"
 	tU64  lty = "BitVec 64"
+	tU32  lty = "BitVec 32"
 	tByte lty = "UInt8"
 	tBool lty = "Bool"
 	tErr  lty = "Kit.GoSem.Err"
@@ -228,8 +248,6 @@ type fnCtx struct {
 	tmp      int
 	known    map[string]*fnSig // translated functions of the same group (for calls)
 	mutatedFlat map[string]bool
-	lastRecv string   // receiver / arguments of the extern call translated last (for its effects)
-	lastArgs []string
 }
 
 type fnSig struct {
@@ -268,6 +286,8 @@ func (c *fnCtx) leanType(t types.Type, n ast.Node) lty {
 			return tInt
 		case types.Uint, types.Uint64, types.Uintptr:
 			return tU64
+		case types.Uint32:
+			return tU32
 		case types.Uint8:
 			return tByte
 		case types.Bool, types.UntypedBool:
@@ -294,6 +314,8 @@ func zero(t lty) string {
 		return "(0 : Int)"
 	case tU64:
 		return "(0#64)"
+	case tU32:
+		return "(0#32)"
 	case tByte:
 		return "(0 : UInt8)"
 	case tBool:
@@ -337,6 +359,9 @@ type exprOut struct {
 	s   string
 	ty  lty
 	pre []pre
+	// for the value of an extern call: its receiver and translated arguments (for its effects)
+	exRecv string
+	exArgs []string
 }
 
 func constText(v constant.Value, ty lty, c *fnCtx, n ast.Node) string {
@@ -352,6 +377,8 @@ func constText(v constant.Value, ty lty, c *fnCtx, n ast.Node) string {
 		return "(" + s + " : Int)"
 	case tU64:
 		return "(" + v.ExactString() + "#64)"
+	case tU32:
+		return "(" + v.ExactString() + "#32)"
 	case tByte:
 		return "(" + v.ExactString() + " : UInt8)"
 	case tBool:
@@ -402,6 +429,16 @@ func (c *fnCtx) expr(e ast.Expr) exprOut {
 	switch v := e.(type) {
 	case *ast.ParenExpr:
 		return c.expr(v.X)
+	case *ast.StarExpr:
+		// *p for a variable whose pointer type is given a value representation in Types
+		if id, ok := v.X.(*ast.Ident); ok {
+			if obj := c.info.Uses[id]; obj != nil {
+				if _, over := c.t.Types[obj.Type().String()]; over {
+					return c.expr(v.X)
+				}
+			}
+		}
+		c.bad(e, "pointer dereference %s", printed(c.fset, e))
 	case *ast.Ident:
 		if v.Name == "nil" {
 			if tt := c.info.Types[e].Type; tt != nil {
@@ -447,12 +484,12 @@ func (c *fnCtx) expr(e ast.Expr) exprOut {
 			if x.ty == tInt {
 				return exprOut{s: "(Kit.GoSem.wrapI64 (-" + x.s + "))", ty: tInt, pre: x.pre}
 			}
-			if x.ty == tU64 {
-				return exprOut{s: "(-" + x.s + ")", ty: tU64, pre: x.pre}
+			if x.ty == tU64 || x.ty == tU32 {
+				return exprOut{s: "(-" + x.s + ")", ty: x.ty, pre: x.pre}
 			}
 		case token.XOR:
-			if x.ty == tU64 {
-				return exprOut{s: "(~~~" + x.s + ")", ty: tU64, pre: x.pre}
+			if x.ty == tU64 || x.ty == tU32 {
+				return exprOut{s: "(~~~" + x.s + ")", ty: x.ty, pre: x.pre}
 			}
 		case token.ADD:
 			return x
@@ -534,12 +571,12 @@ func (c *fnCtx) binary(v *ast.BinaryExpr) exprOut {
 	}
 	// shifts: the count may have another type
 	if v.Op == token.SHL || v.Op == token.SHR {
-		if x.ty != tU64 {
+		if x.ty != tU64 && x.ty != tU32 {
 			c.bad(v, "shift of %s", x.ty)
 		}
 		cnt := y.s
 		switch y.ty {
-		case tU64:
+		case tU64, tU32:
 			cnt = y.s + ".toNat"
 		case tInt:
 			p = append(p, pre{guard: fmt.Sprintf("(decide (0 ≤ %s))", y.s), msg: "negative shift amount: " + printed(c.fset, v)})
@@ -551,14 +588,14 @@ func (c *fnCtx) binary(v *ast.BinaryExpr) exprOut {
 		if v.Op == token.SHR {
 			op = ">>>"
 		}
-		return exprOut{s: fmt.Sprintf("(%s %s %s)", x.s, op, cnt), ty: tU64, pre: p}
+		return exprOut{s: fmt.Sprintf("(%s %s %s)", x.s, op, cnt), ty: x.ty, pre: p}
 	}
 	if x.ty != y.ty {
 		c.bad(v, "operands of different types %s and %s in %s", x.ty, y.ty, printed(c.fset, v))
 	}
 	cmp := map[token.Token]string{token.EQL: "==", token.NEQ: "!=", token.LSS: "<", token.LEQ: "≤", token.GTR: ">", token.GEQ: "≥"}
 	if op, ok := cmp[v.Op]; ok {
-		if (v.Op == token.EQL || v.Op == token.NEQ) || x.ty == tInt || x.ty == tU64 || x.ty == tByte {
+		if (v.Op == token.EQL || v.Op == token.NEQ) || x.ty == tInt || x.ty == tU64 || x.ty == tU32 || x.ty == tByte {
 			if v.Op == token.EQL || v.Op == token.NEQ {
 				return exprOut{s: fmt.Sprintf("(%s %s %s)", x.s, op, y.s), ty: tBool, pre: p}
 			}
@@ -578,13 +615,13 @@ func (c *fnCtx) binary(v *ast.BinaryExpr) exprOut {
 			p = append(p, pre{guard: fmt.Sprintf("(%s != 0)", y.s), msg: "integer divide by zero: " + printed(c.fset, v)})
 			return exprOut{s: fmt.Sprintf("(Kit.GoSem.modI64 %s %s)", x.s, y.s), ty: tInt, pre: p}
 		}
-	case tU64:
+	case tU64, tU32:
 		ops := map[token.Token]string{token.ADD: "+", token.SUB: "-", token.MUL: "*", token.AND: "&&&", token.OR: "|||", token.XOR: "^^^"}
 		if op, ok := ops[v.Op]; ok {
-			return exprOut{s: fmt.Sprintf("(%s %s %s)", x.s, op, y.s), ty: tU64, pre: p}
+			return exprOut{s: fmt.Sprintf("(%s %s %s)", x.s, op, y.s), ty: x.ty, pre: p}
 		}
 		if v.Op == token.AND_NOT {
-			return exprOut{s: fmt.Sprintf("(%s &&& ~~~%s)", x.s, y.s), ty: tU64, pre: p}
+			return exprOut{s: fmt.Sprintf("(%s &&& ~~~%s)", x.s, y.s), ty: x.ty, pre: p}
 		}
 	}
 	c.bad(v, "operator %s on %s", v.Op, x.ty)
@@ -630,6 +667,12 @@ func (c *fnCtx) call(v *ast.CallExpr) exprOut {
 			}
 		}
 		// call to another translated function
+		if ex, ok := c.t.Externs[id.Name]; ok {
+			if len(ex.Effects) > 0 {
+				c.bad(v, "extern %s has effects: only allowed as a statement or as the whole right-hand side of an assignment", id.Name)
+			}
+			return c.externValue(ex, v)
+		}
 		if sig, ok := c.known[id.Name]; ok {
 			var args []string
 			var p []pre
@@ -683,6 +726,10 @@ func (c *fnCtx) call(v *ast.CallExpr) exprOut {
 	if sel, ok := v.Fun.(*ast.SelectorExpr); ok && printed(c.fset, sel) == "errors.New" {
 		return exprOut{s: `(some "errors.New" : Kit.GoSem.Err)`, ty: tErr}
 	}
+	// fmt.Errorf(...): likewise (its %w operand is not tracked)
+	if sel, ok := v.Fun.(*ast.SelectorExpr); ok && printed(c.fset, sel) == "fmt.Errorf" {
+		return exprOut{s: `(some "fmt.Errorf" : Kit.GoSem.Err)`, ty: tErr}
+	}
 	// externs
 	if sel, ok := v.Fun.(*ast.SelectorExpr); ok {
 		key := printed(c.fset, sel)
@@ -718,6 +765,7 @@ type conts struct {
 	brk  func() string // break (nil outside loops)
 	cont func() string // continue
 	ret  func(vals []string) string
+	retRaw func(tuple string) string // re-raise a `return` that happened inside a nested loop
 	jump map[string]func() string // goto <label> (labels at function-body level, jumped to from below)
 }
 
@@ -785,6 +833,17 @@ func (c *fnCtx) assigned(n ast.Node, out map[string]lty) {
 }
 
 func (c *fnCtx) noteEffects(e ast.Expr, out map[string]lty) {
+	if ex, _, ok := c.externOf(e); ok {
+		for _, ef := range ex.Effects {
+			nm := strings.TrimSpace(strings.SplitN(ef, ":=", 2)[0])
+			for _, g := range c.env {
+				if g.name == nm {
+					out[nm] = g.ty
+				}
+			}
+		}
+		return
+	}
 	if call, ok := e.(*ast.CallExpr); ok {
 		if sel, ok := call.Fun.(*ast.SelectorExpr); ok {
 			if ex, ok := c.lookupExtern(sel); ok {
@@ -802,6 +861,9 @@ func (c *fnCtx) noteEffects(e ast.Expr, out map[string]lty) {
 }
 
 func (c *fnCtx) noteAssigned(l ast.Expr, define bool, out map[string]lty) {
+	if base, _, ok := c.indexTarget(l); ok {
+		l = base
+	}
 	switch v := l.(type) {
 	case *ast.Ident:
 		if v.Name == "_" {
@@ -863,7 +925,7 @@ func (c *fnCtx) stmts(list []ast.Stmt, k conts) string {
 		return c.labelled(ls, list[1:], k)
 	}
 	rest := func() string { return c.stmts(list[1:], k) }
-	return c.stmt(list[0], conts{next: rest, brk: k.brk, cont: k.cont, ret: k.ret, jump: k.jump})
+	return c.stmt(list[0], conts{next: rest, brk: k.brk, cont: k.cont, ret: k.ret, retRaw: k.retRaw, jump: k.jump})
 }
 
 // labelled translates `L: s; rest…` (the label's region runs to the end of the enclosing block,
@@ -877,7 +939,9 @@ func (c *fnCtx) labelled(ls *ast.LabeledStmt, rest []ast.Stmt, k conts) string {
 	var params, args []string
 	for _, p := range c.extraParams {
 		params = append(params, p)
-		args = append(args, strings.TrimSpace(strings.SplitN(strings.TrimPrefix(p, "("), ":", 2)[0]))
+		if !strings.HasPrefix(p, "{") {
+			args = append(args, strings.TrimSpace(strings.SplitN(strings.TrimPrefix(p, "("), ":", 2)[0]))
+		}
 	}
 	for _, vr := range all {
 		params = append(params, fmt.Sprintf("(%s : %s)", vr.name, vr.ty))
@@ -890,7 +954,7 @@ func (c *fnCtx) labelled(ls *ast.LabeledStmt, rest []ast.Stmt, k conts) string {
 	}
 	jump[label] = enter
 	region := append([]ast.Stmt{ls.Stmt}, rest...)
-	body := c.stmts(region, conts{next: k.next, brk: k.brk, cont: k.cont, ret: k.ret, jump: jump})
+	body := c.stmts(region, conts{next: k.next, brk: k.brk, cont: k.cont, ret: k.ret, retRaw: k.retRaw, jump: jump})
 	c.env = append([]variable{}, all...)
 	def := fmt.Sprintf("def %s (fuel : Nat) %s : Kit.GoSem.Res (%s) :=\n  match fuel with\n  | 0 => .nofuel\n  | fuel + 1 =>\n%s\n",
 		name, strings.Join(params, " "), c.resultTy, ind(ind(body)))
@@ -944,16 +1008,21 @@ func (c *fnCtx) assignOne(name string, ty lty, rhs exprOut, n ast.Node, body fun
 	return c.emitPre(rhs.pre, fmt.Sprintf("let %s : %s := %s\n%s", name, ty, rhs.s, body()))
 }
 
-func (c *fnCtx) effects(ex extern, body string) string {
+func (c *fnCtx) effects(ex extern, val exprOut, body string) string {
 	for i := len(ex.Effects) - 1; i >= 0; i-- {
 		parts := strings.SplitN(ex.Effects[i], ":=", 2)
-		body = fmt.Sprintf("let %s := %s\n%s", strings.TrimSpace(parts[0]), subst(strings.TrimSpace(parts[1]), c.lastRecv, c.lastArgs), body)
+		body = fmt.Sprintf("let %s := %s\n%s", strings.TrimSpace(parts[0]), subst(strings.TrimSpace(parts[1]), val.exRecv, val.exArgs), body)
 	}
 	return body
 }
 
 func (c *fnCtx) externOf(e ast.Expr) (extern, *ast.CallExpr, bool) {
 	if call, ok := e.(*ast.CallExpr); ok {
+		if id, ok := call.Fun.(*ast.Ident); ok {
+			if ex, ok := c.t.Externs[id.Name]; ok {
+				return ex, call, true
+			}
+		}
 		if sel, ok := call.Fun.(*ast.SelectorExpr); ok {
 			if ex, ok := c.lookupExtern(sel); ok {
 				return ex, call, true
@@ -981,23 +1050,29 @@ func (c *fnCtx) externValue(ex extern, call *ast.CallExpr) exprOut {
 	var args []string
 	var p []pre
 	for _, a := range call.Args {
+		if id, ok := a.(*ast.Ident); ok && c.isAbstract(id.Name) {
+			args = append(args, "()")
+			continue
+		}
 		x := c.expr(a)
 		p = append(p, x.pre...)
 		args = append(args, x.s)
 	}
 	recv := ""
-	if id, ok := call.Fun.(*ast.SelectorExpr).X.(*ast.Ident); ok {
-		if n, ok := c.names[c.info.Uses[id]]; ok {
-			recv = n
+	if sel, ok := call.Fun.(*ast.SelectorExpr); ok {
+		if id, ok := sel.X.(*ast.Ident); ok {
+			if n, ok := c.names[c.info.Uses[id]]; ok {
+				recv = n
+			}
 		}
 	}
-	c.lastRecv, c.lastArgs = recv, args
-	return exprOut{s: subst(ex.Lean, recv, args), ty: lty(ex.Type), pre: p}
+	return exprOut{s: subst(ex.Lean, recv, args), ty: lty(ex.Type), pre: p, exRecv: recv, exArgs: args}
 }
 
 func (c *fnCtx) stmt(s ast.Stmt, k conts) string {
 	for _, ig := range c.t.Ignore {
-		if printed(c.fset, s) == ig {
+		ps := printed(c.fset, s)
+		if ps == ig || (strings.HasSuffix(ig, "…") && strings.HasPrefix(ps, strings.TrimSuffix(ig, "…"))) {
 			return k.next()
 		}
 	}
@@ -1050,6 +1125,8 @@ func (c *fnCtx) stmt(s ast.Stmt, k conts) string {
 			rhs = fmt.Sprintf("Kit.GoSem.wrapI64 (%s %s 1)", name, op)
 		case tU64:
 			rhs = fmt.Sprintf("%s %s 1#64", name, op)
+		case tU32:
+			rhs = fmt.Sprintf("%s %s 1#32", name, op)
 		default:
 			c.bad(s, "++/-- on %s", ty)
 		}
@@ -1059,7 +1136,7 @@ func (c *fnCtx) stmt(s ast.Stmt, k conts) string {
 	case *ast.ExprStmt:
 		if ex, call, ok := c.externOf(v.X); ok {
 			val := c.externValue(ex, call)
-			return c.emitPre(val.pre, c.effects(ex, k.next()))
+			return c.emitPre(val.pre, c.effects(ex, val, k.next()))
 		}
 		if call, ok := v.X.(*ast.CallExpr); ok {
 			if id, ok := call.Fun.(*ast.Ident); ok && id.Name == "panic" {
@@ -1111,7 +1188,7 @@ func (c *fnCtx) stmt(s ast.Stmt, k conts) string {
 				c.tmp++
 				nm := fmt.Sprintf("rv%d", c.tmp)
 				retEffects = append(retEffects, func(body string) string {
-					return fmt.Sprintf("let %s : %s := %s\n%s", nm, x.ty, x.s, c.effects(ex, body))
+					return fmt.Sprintf("let %s : %s := %s\n%s", nm, x.ty, x.s, c.effects(ex, x, body))
 				})
 				vals = append(vals, nm)
 				continue
@@ -1168,7 +1245,45 @@ func (c *fnCtx) stmt(s ast.Stmt, k conts) string {
 	return ""
 }
 
+// indexTarget recognises `x[i]` / `(*x)[i]` on the left of an assignment.
+func (c *fnCtx) indexTarget(e ast.Expr) (base ast.Expr, idx ast.Expr, ok bool) {
+	ie, isIdx := e.(*ast.IndexExpr)
+	if !isIdx {
+		return nil, nil, false
+	}
+	b := ie.X
+	for {
+		if p, isP := b.(*ast.ParenExpr); isP {
+			b = p.X
+			continue
+		}
+		if st, isS := b.(*ast.StarExpr); isS {
+			b = st.X
+			continue
+		}
+		break
+	}
+	if _, isID := b.(*ast.Ident); !isID {
+		return nil, nil, false
+	}
+	return b, ie.Index, true
+}
+
 func (c *fnCtx) assign(v *ast.AssignStmt, k conts) string {
+	// x[i] = e on a list-typed variable
+	if v.Tok == token.ASSIGN && len(v.Lhs) == 1 && len(v.Rhs) == 1 {
+		if base, idx, ok := c.indexTarget(v.Lhs[0]); ok {
+			name, ty, _ := c.lhsVar(base)
+			if !strings.HasPrefix(string(ty), "List ") {
+				c.bad(v, "indexed assignment into %s", ty)
+			}
+			i := c.expr(idx)
+			r := c.expr(v.Rhs[0])
+			ps := append(append([]pre{}, i.pre...), r.pre...)
+			ps = append(ps, pre{guard: fmt.Sprintf("(decide (0 ≤ %s ∧ %s < Kit.GoSem.lenI %s))", i.s, i.s, name), msg: "index out of range: " + printed(c.fset, v.Lhs[0])})
+			return c.emitPre(ps, fmt.Sprintf("let %s : %s := Kit.GoSem.setAt %s %s %s\n%s", name, ty, name, i.s, r.s, k.next()))
+		}
+	}
 	// op-assign
 	if v.Tok != token.ASSIGN && v.Tok != token.DEFINE {
 		ops := map[token.Token]token.Token{token.ADD_ASSIGN: token.ADD, token.SUB_ASSIGN: token.SUB, token.MUL_ASSIGN: token.MUL, token.QUO_ASSIGN: token.QUO,
@@ -1222,7 +1337,7 @@ func (c *fnCtx) assign(v *ast.AssignStmt, k conts) string {
 		for _, d := range decls {
 			d()
 		}
-		body := c.effects(ex, k.next())
+		body := c.effects(ex, val, k.next())
 		return c.emitPre(val.pre, fmt.Sprintf("match %s with\n| (%s) =>\n%s", val.s, strings.Join(pats, ", "), ind(body)))
 	}
 	if len(v.Lhs) != len(v.Rhs) {
@@ -1270,7 +1385,7 @@ func (c *fnCtx) assign(v *ast.AssignStmt, k conts) string {
 			}
 			s := k.next()
 			if it.ex != nil {
-				s = c.effects(*it.ex, s)
+				s = c.effects(*it.ex, it.rhs, s)
 			}
 			return s
 		}
@@ -1326,10 +1441,10 @@ func (c *fnCtx) binaryOf(op token.Token, x, y exprOut, n ast.Node) exprOut {
 			p = append(p, pre{guard: fmt.Sprintf("(%s != 0)", y.s), msg: "integer divide by zero"})
 			return exprOut{s: fmt.Sprintf("(Kit.GoSem.modI64 %s %s)", x.s, y.s), ty: tInt, pre: p}
 		}
-	case tU64:
+	case tU64, tU32:
 		ops := map[token.Token]string{token.ADD: "+", token.SUB: "-", token.MUL: "*", token.AND: "&&&", token.OR: "|||", token.XOR: "^^^"}
 		if o, ok := ops[op]; ok {
-			return exprOut{s: fmt.Sprintf("(%s %s %s)", x.s, o, y.s), ty: tU64, pre: p}
+			return exprOut{s: fmt.Sprintf("(%s %s %s)", x.s, o, y.s), ty: x.ty, pre: p}
 		}
 	}
 	c.bad(n, "operator %s on %s", op, x.ty)
@@ -1342,7 +1457,7 @@ func (c *fnCtx) ifStmt(v *ast.IfStmt, k conts) string {
 	if v.Init != nil {
 		init := v.Init
 		wrapInit = func(body func() string) string {
-			return c.stmt(init, conts{next: body, brk: k.brk, cont: k.cont, ret: k.ret, jump: k.jump})
+			return c.stmt(init, conts{next: body, brk: k.brk, cont: k.cont, ret: k.ret, retRaw: k.retRaw, jump: k.jump})
 		}
 	}
 	return wrapInit(func() string {
@@ -1373,7 +1488,7 @@ func (c *fnCtx) ifStmt(v *ast.IfStmt, k conts) string {
 			c.env = sv
 			return s
 		})
-		kk := conts{next: callK, brk: k.brk, cont: k.cont, ret: k.ret, jump: k.jump}
+		kk := conts{next: callK, brk: k.brk, cont: k.cont, ret: k.ret, retRaw: k.retRaw, jump: k.jump}
 		thenS := c.block(v.Body, kk)
 		var elseS string
 		switch e := v.Else.(type) {
@@ -1394,7 +1509,7 @@ func (c *fnCtx) switchStmt(v *ast.SwitchStmt, k conts) string {
 	if v.Init != nil {
 		init := v.Init
 		wrapInit = func(body func() string) string {
-			return c.stmt(init, conts{next: body, brk: k.brk, cont: k.cont, ret: k.ret, jump: k.jump})
+			return c.stmt(init, conts{next: body, brk: k.brk, cont: k.cont, ret: k.ret, retRaw: k.retRaw, jump: k.jump})
 		}
 	}
 	return wrapInit(func() string {
@@ -1420,7 +1535,7 @@ func (c *fnCtx) switchStmt(v *ast.SwitchStmt, k conts) string {
 			return s
 		})
 		// `break` inside a switch leaves the switch
-		kk := conts{next: callK, brk: callK, cont: k.cont, ret: k.ret, jump: k.jump}
+		kk := conts{next: callK, brk: callK, cont: k.cont, ret: k.ret, retRaw: k.retRaw, jump: k.jump}
 		var deflt *ast.CaseClause
 		type arm struct {
 			cond string
@@ -1478,7 +1593,7 @@ func (c *fnCtx) forStmt(v *ast.ForStmt, k conts) string {
 	if v.Init != nil {
 		init := v.Init
 		wrapInit = func(body func() string) string {
-			return c.stmt(init, conts{next: body, ret: k.ret, jump: k.jump})
+			return c.stmt(init, conts{next: body, ret: k.ret, retRaw: k.retRaw, jump: k.jump})
 		}
 	}
 	out := wrapInit(func() string {
@@ -1496,7 +1611,9 @@ func (c *fnCtx) forStmt(v *ast.ForStmt, k conts) string {
 		var params, args []string
 		for _, p := range c.extraParams {
 			params = append(params, p)
-			args = append(args, strings.TrimSpace(strings.SplitN(strings.Trim(p, "()"), ":", 2)[0]))
+			if !strings.HasPrefix(p, "{") {
+				args = append(args, strings.TrimSpace(strings.SplitN(strings.Trim(p, "()"), ":", 2)[0]))
+			}
 		}
 		for _, vr := range all {
 			params = append(params, fmt.Sprintf("(%s : %s)", vr.name, vr.ty))
@@ -1525,9 +1642,10 @@ func (c *fnCtx) forStmt(v *ast.ForStmt, k conts) string {
 			if v.Post == nil {
 				return recurse()
 			}
-			return c.stmt(v.Post, conts{next: recurse, ret: k.ret, jump: innerJump})
+			return c.stmt(v.Post, conts{next: recurse, ret: k.ret, retRaw: k.retRaw, jump: innerJump})
 		}
-		inner := conts{next: post, brk: exit, cont: post, ret: func(vals []string) string { return ".ok (.ret " + c.retTuple(c, vals) + ")" }, jump: innerJump}
+		inner := conts{next: post, brk: exit, cont: post, ret: func(vals []string) string { return ".ok (.ret " + c.retTuple(c, vals) + ")" },
+			retRaw: func(t string) string { return ".ok (.ret " + t + ")" }, jump: innerJump}
 		var bodyS string
 		if v.Cond != nil {
 			cond := c.expr(v.Cond)
@@ -1548,8 +1666,12 @@ func (c *fnCtx) forStmt(v *ast.ForStmt, k conts) string {
 			}
 			jmpArm = fmt.Sprintf("| .ok (.jmp %s) =>\n%s\n", carriedPat, ind(j()))
 		}
-		return fmt.Sprintf("match %s fuel %s with\n| .panic msg__ => .panic msg__\n| .nofuel => .nofuel\n| .ok (.ret ret__) => .ok ret__\n%s| .ok (.brk %s) =>\n%s",
-			loopName, strings.Join(args, " "), jmpArm, carriedPat, ind(after))
+		reraise := ".ok ret__"
+		if k.retRaw != nil {
+			reraise = k.retRaw("ret__")
+		}
+		return fmt.Sprintf("match %s fuel %s with\n| .panic msg__ => .panic msg__\n| .nofuel => .nofuel\n| .ok (.ret ret__) => %s\n%s| .ok (.brk %s) =>\n%s",
+			loopName, strings.Join(args, " "), reraise, jmpArm, carriedPat, ind(after))
 	})
 	c.env = c.env[:envLen]
 	return out
@@ -1832,7 +1954,9 @@ func translate(t target, fset *token.FileSet, files []*ast.File, info *types.Inf
 	fmt.Fprintf(&b, "def %s %s : Kit.GoSem.Res (%s) :=\n%s\n", c.leanName, strings.Join(ps, " "), c.resultTy, ind(body))
 	sig := &fnSig{lean: c.leanName, needFuel: c.needFuel, resultTy: c.resultTy, params: sigParams[nRecv:]}
 	for _, p := range c.extraParams {
-		sig.extra = append(sig.extra, strings.TrimSpace(strings.SplitN(strings.TrimPrefix(p, "("), ":", 2)[0]))
+		if !strings.HasPrefix(p, "{") {
+			sig.extra = append(sig.extra, strings.TrimSpace(strings.SplitN(strings.TrimPrefix(p, "("), ":", 2)[0]))
+		}
 	}
 	if len(outTys) != 1 {
 		sig.resultTy = "" // calls to multi-result functions are not supported as expressions
@@ -1851,6 +1975,8 @@ func (c *fnCtx) leanTypeSoft(t types.Type) lty {
 			return tInt
 		case types.Uint, types.Uint64:
 			return tU64
+		case types.Uint32:
+			return tU32
 		case types.Uint8:
 			return tByte
 		case types.Bool:
